@@ -777,7 +777,9 @@ impl<'a> UdpNhcRepr {
                 checksum::data(packet.payload_mut()),
             ]);
 
-            packet.set_checksum(chk_sum);
+            // As for uncompressed UDP, a computed checksum of zero is transmitted
+            // as all-ones: zero means "no checksum", which IPv6 does not allow.
+            packet.set_checksum(if chk_sum == 0 { 0xffff } else { chk_sum });
         }
     }
 }
